@@ -1,0 +1,20 @@
+//go:build verif
+
+package crl
+
+// Verification-only accessors for the concurrency checks (build tag verif).
+
+// VerifHoldUpdateMutex takes the process-wide refresh mutex and returns the function releasing it.
+func VerifHoldUpdateMutex() func() {
+	crlUpdateMutex.Lock()
+	return crlUpdateMutex.Unlock
+}
+
+// VerifHoldWorkDirMutex takes the work directory registry mutex and returns the function releasing it.
+func VerifHoldWorkDirMutex() func() {
+	workDirInUseMutex.Lock()
+	return workDirInUseMutex.Unlock
+}
+
+// VerifUpdateCRLsRecovering is the entry point of the update goroutines.
+func (c *CRLRevocationChecker) VerifUpdateCRLsRecovering(force bool) { c.updateCRLsRecovering(force) }
